@@ -624,6 +624,8 @@ def searchsorted_row_lookup(ctx, rule, f, rows, node, boundary_attr="starts", ke
         needle = c.a[1][1] if len(c.a[1]) > 1 else kw.get("v")
         if needle is not None and len(alts(needle)) == 1 and needle.k == "bin" and needle.a[0] == "+" and (is_const(needle.a[2], 1) or is_const(needle.a[1], 1)):
             shift += 1
+        elif needle is not None and len(alts(needle)) == 1 and np_call(needle, {"add"}) and len(needle.a[1]) == 2 and (is_const(needle.a[1][1], 1) or is_const(needle.a[1][0], 1)):
+            shift += 1
         if b is not None and len(alts(b)) == 1 and b.k == "bin" and b.a[0] == "-" and is_const(b.a[2], 1):
             shift += 1
             b = b.a[1]
